@@ -12,7 +12,7 @@
    the hypothesis always holds when magnitudes and scale factor are rational.
    The finite theorems range over the regenerated unit table. *)
 From FendV Require Import Base.Prelude Units.Defs Units.Algebra Units.AlgebraProofs Units.Lookup
-     Units.Index Units.Legality Units.Table Units.TableProofs04 Units.Standards.
+     Units.Index Units.Legality Units.Table Units.TableProofs04 Units.Standards Units.Dim Units.Simplify Units.SimplifyProofs.
 From FendV Require Import Units.Generated.UnitTable.
 From Coq Require Import QArith.
 Close Scope Q_scope.
@@ -146,6 +146,48 @@ Theorem C04_standards : forall n f dims r,
 Proof. exact standards_hold. Qed.
 Print Assumptions C04_standards.
 
+(* --- Value::simplify: the implicit conversions applied before a number is
+   printed (merging of compatible units, replacement of a compound unit by its
+   default unit newton, joule, ..., liter) preserve the quantity --- *)
+
+(* the physics dimension is unchanged, for every value, resolver and default
+   table (pct_ok: a unit called % or percent has no base units) *)
+Theorem C04_simplify_preserves_dimension : forall resolve defaults v r,
+  simplify resolve defaults v = Ok r -> pct_ok (v_units v) -> forall k, (vdim r k == vdim v k)%Q.
+Proof. exact simplify_preserves_dimension. Qed.
+Print Assumptions C04_simplify_preserves_dimension.
+
+(* the replacement by the default unit keeps value x scale: for every value and
+   every default unit, whatever its own scale (liter = 1/1000 m^3) *)
+Theorem C04_simplify_default_unit_preserves_quantity : forall p m rhs r sf,
+  compute_scale_factor (v_units m) (v_units rhs) = Ok sf ->
+  v_convert_to m rhs = Ok r -> v_exact r = true ->
+  (sem p (xv (sf_offset sf)) == 0)%Q ->
+  (sem p (v_val r) * sem p (xv (sf_scale2 sf)) == sem p (v_val m) * sem p (xv (sf_scale1 sf)))%Q.
+Proof. exact default_step_preserves_quantity. Qed.
+Print Assumptions C04_simplify_default_unit_preserves_quantity.
+
+(* the whole of simplify keeps value x product of scale^exponent.
+   Full statement wanted: for every value.  Proved: for every exact rational
+   magnitude and every unit list made of "plain" units (non-zero rational
+   scale, own conversion leg exact and without offset: all units of the table
+   except the temperature scales, multiples of pi and inexact ones) with
+   integer exponents -- any number of components, aliases and percentages
+   included; the default-unit step is covered for all values by the theorem
+   above.  Missing: pi-multiples, non-integer exponents, inexact magnitudes
+   (the differential run covers those). *)
+Theorem C04_simplify_preserves_quantity : forall resolve defaults v r x,
+  simplify resolve defaults v = Ok r -> v_simp v = true ->
+  v_val v = Simple x -> v_exact v = true -> Forall plain_comp (v_units v) ->
+  exists m y, simplify_merge v = Ok m /\ v_val m = Simple y /\ (y * uq (v_units m) == x * uq (v_units v))%Q /\
+    (r = m \/
+     exists rhs sf, default_target resolve defaults m = Ok (Some rhs) /\
+       compute_scale_factor (v_units m) (v_units rhs) = Ok sf /\ v_units r = v_units rhs /\
+       (v_exact r = true -> forall p, (sem p (xv (sf_offset sf)) == 0)%Q ->
+        (sem p (v_val r) * sem p (xv (sf_scale2 sf)) == y * sem p (xv (sf_scale1 sf)))%Q)).
+Proof. exact simplify_preserves_quantity. Qed.
+Print Assumptions C04_simplify_preserves_quantity.
+
 (* --- non-vacuity --- *)
 (* 5 km to inch through the model: units compatible, scale factor rational,
    result exact *)
@@ -163,3 +205,21 @@ Proof. vm_compute. reflexivity. Qed.
 Example C04_standards_inhabited :
   (200 <=? N.of_nat (length (filter (fun e => match impl_entry (fst (fst e)) with Some _ => true | None => false end) standards))) = true.
 Proof. vm_compute. reflexivity. Qed.
+
+(* 1 hectare mm (two components that cannot be merged, dimension meter^3) is
+   simplified by the model, with the default table of the tree, to exactly
+   10000 liters; and a plain component exists *)
+Example C04_simplify_inhabited :
+  match model_resolve [104;101;99;116;97;114;101], model_resolve [109;109] with
+  | LOk a, LOk b =>
+    match simplify model_resolve gen_defaults (v_mul a b) with
+    | Ok r => v_exact r && real_eqb (v_val r) (Simple (Qmake 10000 1))
+              && match v_units r with [c] => str_eqb (nu_sing (ue_unit c)) [108;105;116;101;114] | _ => false end
+    | _ => false
+    end
+  | _, _ => false
+  end = true.
+Proof. vm_compute. reflexivity. Qed.
+
+Example C04_plain_inhabited : plain_comp (mkue u_metre 1%Q).
+Proof. exact plain_metre. Qed.
